@@ -146,6 +146,10 @@ def branch_locals(then):
 
 
 def run(F, rep):
+    # ------------------------------------------------------------------ F1: fallbacks test the result
+    from engines import rule_fallback_guards
+    rule_fallback_guards(F, rep, 'C02.F1', lambda g_: '/src/' in g_.file and not g_.file.endswith('.h'), 'the library', floor=2)
+
     pv = xmlvocab.printer_vocab(F)
     pa, pe = xmlvocab.parser_vocab(F)
 
